@@ -243,6 +243,9 @@ class VTuple(V):
         return "Tuple(" + ", ".join(map(repr, self.items)) + ")"
 
 
+UNION_NAMES = ("__union__",)
+
+
 class VMap(V):
     """Finite map value: dom : K -> Bool and a lifted value template.
 
@@ -489,6 +492,16 @@ def coerce(v: V, like: V) -> V:
         if isinstance(v, VOpt):
             return VOpt(v.isnone, coerce(v.val, like.val))
         return VOpt(False, coerce(v, like.val))
+    if isinstance(like, VTuple) and like.names == UNION_NAMES:
+        # union[struct:A|struct:B]: (tag, an A, a B) - the object's class selects the tag, the other slots are dummies
+        if isinstance(v, VTuple) and v.names == UNION_NAMES:
+            return VTuple([coerce(a, b) for a, b in zip(v.items, like.items)], UNION_NAMES)
+        if isinstance(v, VStruct):
+            for i, alt in enumerate(like.items[1:]):
+                if alt.cls.qualname == v.cls.qualname:
+                    return VTuple([VInt(z3.IntVal(i))] + [coerce(v, a) if j == i else dummy_like(a)
+                                                          for j, a in enumerate(like.items[1:])], UNION_NAMES)
+        raise Unsupported(f"cannot coerce {v!r} to {like.kind}")
     if isinstance(like, VTuple):
         if isinstance(v, VList) and v.items is not None:
             v = VTuple(v.items)
@@ -670,6 +683,10 @@ def fresh(kind: str, name: str, namer=None) -> V:
     if kind.startswith("opaque:"):
         cls = kind[len("opaque:") :]
         return VOpaque(mk(name, usort(cls)), cls)
+    if kind.startswith("union[") and kind.endswith("]"):
+        # one of several struct kinds, stored as (tag, one slot per alternative)
+        alts = [a.strip() for a in kind[6:-1].split("|")]
+        return VTuple([VInt(mk(name + ".tag", INT))] + [fresh(a, f"{name}.alt{i}", namer) for i, a in enumerate(alts)], UNION_NAMES)
     if kind.startswith("struct:"):
         ci, fkinds = STRUCT_RESOLVER(kind[7:])
         return VStruct(ci, {f: fresh(k, f"{name}.{f}", namer) for f, k in fkinds.items()})
